@@ -3,6 +3,7 @@ import Driver.CacheD
 import Driver.UrlD
 import Driver.LoaderD
 import Driver.SoapD
+import Driver.PipelineD
 /-! Line-protocol driver: one JSON object per stdin line, one per stdout line. -/
 open Lean Driver
 
@@ -17,6 +18,7 @@ def dispatch (j : Json) : R Json := do
   | "url.port" => urlPort j
   | "loader.policy" => loaderPolicy j
   | "soap.triage" => soapTriage j
+  | "pipeline.run" => pipelineRun j
   | _ => throw s!"unknown op {op}"
 
 def handleLine (line : String) : String :=
